@@ -50,7 +50,7 @@ def Dom : Expr → (Nat → ℝ) → Prop
   | mul a b, v => Dom a v ∧ Dom b v
   | div a b, v => Dom a v ∧ Dom b v ∧ evalR b v ≠ 0
   | neg a, v => Dom a v
-  | powc a p, v => Dom a v ∧ (evalR a v ≠ 0 ∨ 1 ≤ p)
+  | powc a p, v => Dom a v ∧ (evalR a v ≠ 0 ∨ 1 ≤ p ∨ p = 0)
   | exp a, v => Dom a v
   | log a, v => Dom a v ∧ 0 < evalR a v
   | ncdf a, v => Dom a v
@@ -116,7 +116,15 @@ theorem jet_sound (e : Expr) (u : Nat → ℝ → ℝ) (u' : Nat → ℝ) (t₀ 
   | powc a p iha =>
     obtain ⟨ha0, ha1⟩ := iha hd.1
     refine ⟨by simp only [evalJ, evalR, ha0], ?_⟩
-    exact (ha1.rpow_const hd.2).congr_deriv (by simp only [evalJ]; rw [ha0])
+    rcases hd.2 with h | h | h
+    · exact (ha1.rpow_const (Or.inl h)).congr_deriv (by simp only [evalJ]; rw [ha0])
+    · exact (ha1.rpow_const (Or.inr h)).congr_deriv (by simp only [evalJ]; rw [ha0])
+    · -- x^0 is the constant 1 (also at 0): derivative 0 = a1 · 0 · x^(−1)
+      subst h
+      have hc : (fun t => evalR (powc a 0) fun i => u i t) = fun _ => (1 : ℝ) := by
+        funext t; simp only [evalR, Real.rpow_zero]
+      rw [hc]
+      exact (hasDerivAt_const t₀ (1 : ℝ)).congr_deriv (by simp only [evalJ]; ring)
   | exp a iha =>
     obtain ⟨ha0, ha1⟩ := iha hd
     refine ⟨by simp only [evalJ, evalR, ha0], ?_⟩
